@@ -3,7 +3,7 @@
    abstract evaluator: [value] / [gradient] are arbitrary functions of the
    evaluator's variable assignment; all arithmetic is abstract ([sops]), so the
    statements hold for IEEE binary32 as one instance. *)
-From Coq Require Import List Arith.
+From Coq Require Import List Arith ZArith.
 From LF Require Import Misc.Solver Misc.SolverSem.
 
 Section C17.
@@ -52,23 +52,43 @@ Section C17.
   Proof. exact (outer_bounded SO value gradient). Qed.
 
   (* the call returns for EVERY value / gradient function (NaN, infinities, zero
-     gradients included): if halving a finite step reaches, within K halvings, a
-     step that no longer moves the point (binary32: underflow to 0), the line
-     search never runs out of fuel, and a non-finite step gives up at once *)
+     gradients, expressions that see the sign of a zero included), every initial
+     assignment and mask: the only arithmetic fact used is that halving a finite
+     step reaches zero within K halvings (binary32: underflow; K = 300 is
+     plenty).  The line search gives up on a non-finite or zero step. *)
   Theorem C17_terminates :
     forall K,
       (forall s, s_isfinite SO s = true ->
-         exists k, k <= K /\ forall vars ds, trial SO vars ds (Nat.iter k (s_halve SO) s) = vars) ->
-      (forall x, s_sub SO x x = s_zero SO) ->
-      s_ltb SO (s_fabs SO (s_zero SO)) (s_eps SO) = true ->
+         exists k, k <= K /\ s_iszero SO (Nat.iter k (s_halve SO) s) = true) ->
       forall ofuel lsfuel gas (ev0 : assign) (vars : list (nat * num)) (mask : list nat),
-        NoDup (map fst vars) -> K < lsfuel -> 1 <= ofuel -> gas <= ofuel ->
+        K < lsfuel -> 1 <= ofuel -> gas <= ofuel ->
         find_root SO value gradient ofuel lsfuel gas ev0 vars mask <> OutOfFuel.
   Proof. exact (find_root_terminates SO value gradient). Qed.
 End C17.
+
+(* the zero-step exit is necessary: over sign-magnitude integers (two zeros, IEEE
+   sign rules), where halving a finite step does reach zero within 10 halvings,
+   the loop WITHOUT that exit (only the non-finite test) runs out of any fuel on
+   an expression that sees the sign of a zero: the trial point for step 0 from
+   -0 is +0, the residual there differs, and 0 / 2 = 0 *)
+Theorem C17_old_line_search_refuted :
+  forall fuel,
+    line_search_old SignedZero.SZO SignedZero.valueS fuel
+      SignedZero.varsS SignedZero.varsS SignedZero.dsS
+      (SignedZero.of_Z 2%Z) (SignedZero.of_Z 1%Z) (SignedZero.of_Z 2%Z) = LS_out_of_fuel.
+Proof. exact old_line_search_refuted. Qed.
+
+(* ... although that arithmetic satisfies the hypothesis of C17_terminates *)
+Theorem C17_old_line_search_refuted_halving :
+  forall s, s_isfinite SignedZero.SZO s = true ->
+    exists k, k <= 10 /\
+      s_iszero SignedZero.SZO (Nat.iter k (s_halve SignedZero.SZO) s) = true.
+Proof. exact SignedZero.SZ_halving_reaches_zero. Qed.
 
 Print Assumptions C17_residual_consistent.
 Print Assumptions C17_masked_untouched.
 Print Assumptions C17_absent_untouched.
 Print Assumptions C17_iteration_budget.
 Print Assumptions C17_terminates.
+Print Assumptions C17_old_line_search_refuted.
+Print Assumptions C17_old_line_search_refuted_halving.
